@@ -294,6 +294,10 @@ pub struct Monitor<'a>
     frames: Vec<Frame>,
     runners: Vec<RunnerInv>,
     payloads: HashMap<PayloadId, PayloadInfo>,
+    /// Payloads created by an issued operation whose command has not been applied yet, and those among them that were
+    /// dropped before that (legitimate iff nobody has to read them when the command takes effect).
+    announced: std::collections::HashSet<PayloadId>,
+    dropped_before_apply: std::collections::HashSet<PayloadId>,
     polled: Vec<PolledEvent>,
     fifos: HashMap<ActorId, Fifo>,
     issued: HashMap<CmdId, Issued>,
@@ -334,7 +338,7 @@ impl<'a> Monitor<'a>
         Monitor{
             cfg, actors, ents,
             regs: Vec::new(), groups: Vec::new(), tokens: Vec::new(), res: 0,
-            obls: Vec::new(), frames: Vec::new(), runners: Vec::new(), payloads: HashMap::new(), polled: Vec::new(), fifos: HashMap::new(),
+            obls: Vec::new(), frames: Vec::new(), runners: Vec::new(), payloads: HashMap::new(), announced: Default::default(), dropped_before_apply: Default::default(), polled: Vec::new(), fifos: HashMap::new(),
             issued: HashMap::new(), pending: Pending::None, root_sub_boundary: 0, root_cmd: None, root_cmd_pos: 0, teardown: false, gc_open: false,
             pos: 0,
             out: MonitorOut{
@@ -592,6 +596,7 @@ impl<'a> Monitor<'a>
                     boundary_passed: false,
                 });
                 self.new_obl(a, Kind::SysEvent, None, Some(p), cmd);
+                self.settle_dropped_before_apply(p);
             }
             Op::Broadcast(ev) =>
             {
@@ -602,6 +607,7 @@ impl<'a> Monitor<'a>
                 });
                 let regs = self.matching_regs(|t| *t == Trig::Broadcast(ev));
                 self.fire(regs, Kind::Broadcast, None, Some(p), cmd);
+                self.settle_dropped_before_apply(p);
             }
             Op::EntityEvent(ev, e) =>
             {
@@ -615,6 +621,7 @@ impl<'a> Monitor<'a>
                     let regs = self.matching_regs(|t| *t == Trig::EntityEvent(ev, e) || *t == Trig::AnyEntityEvent(ev));
                     self.fire(regs, Kind::EntityEvent, Some(Name::Ent(e)), Some(p), cmd);
                 }
+                self.settle_dropped_before_apply(p);
             }
             Op::Insert(k, e, v) =>
             {
@@ -752,6 +759,22 @@ impl<'a> Monitor<'a>
     }
 
     fn gc_irrelevant(&mut self) {}
+
+    /// A payload that was dropped before its command took effect must have no reader now.
+    fn settle_dropped_before_apply(&mut self, p: PayloadId)
+    {
+        if !self.dropped_before_apply.remove(&p) { return; }
+        let Some(info) = self.payloads.get_mut(&p) else { return };
+        info.dropped += 1;
+        let obls = info.obls.clone();
+        for i in obls
+        {
+            let o = self.obls[i].clone();
+            if o.optional || !self.actor_alive(o.actor) { continue; }
+            self.viol("C05", "R-release", format!("early-drop:{:?}:before-apply", kind_class(o.kind)),
+                format!("payload {p} was dropped before its command took effect although actor {} has to read it", o.actor));
+        }
+    }
 
     /// Body-time accessors take effect on the stored value while the body runs.
     fn on_issue_time(&mut self, issued: &Issued)
@@ -1746,6 +1769,14 @@ impl<'a> Monitor<'a>
     {
         let Some(info) = self.payloads.get(&p).cloned() else
         {
+            if self.announced.contains(&p) && !self.teardown
+            {
+                // dropped between the call that sends it and the application of its command (e.g. the target is
+                // already gone at the call): judged when the command takes effect
+                self.dropped_before_apply.insert(p);
+                return;
+            }
+            if self.announced.contains(&p) { return; }
             self.viol("C05", "R-release", "drop-unknown".into(), format!("payload {p} dropped but never sent"));
             return;
         };
@@ -1940,9 +1971,10 @@ impl<'a> Monitor<'a>
         if !matches!(ev, TEv::CanaryDrop(_) | TEv::Drop(_) | TEv::Hook(Hook::Gc)) { self.gc_open = false; }
         match ev
         {
-            TEv::Top{ cmd, issued } => { self.issued.insert(*cmd, issued.clone()); }
+            TEv::Top{ cmd, issued } => { if let Some(p) = issued.payload { self.announced.insert(p); } self.issued.insert(*cmd, issued.clone()); }
             TEv::Issue{ cmd, issued } =>
             {
+                if let Some(p) = issued.payload { self.announced.insert(p); }
                 self.on_issue_time(issued);
                 self.issued.insert(*cmd, issued.clone());
                 if let Some(f) = self.frames.last_mut() { f.issued += 1; }
@@ -1994,6 +2026,9 @@ impl<'a> Monitor<'a>
                             {
                                 self.viol("C02", "R-once", "discarded-live-target".into(),
                                     format!("postponed command for live actor {a} discarded at the end of the tree"));
+                                // ... and it never "runs immediately" once the busy execution has completed
+                                self.viol("C09", "R-window", "postponed-discarded".into(),
+                                    format!("postponed command for live actor {a} was discarded instead of being replayed after the execution that blocked it"));
                             }
                             self.obls[i].state = OState::Aborted;
                         }
